@@ -5,7 +5,7 @@ ID=$1
 for v in a b; do
   src=/tmp/seed/$ID/_seed/$v
   [ -f $src/patch.diff ] || { echo "$ID-$v: no patch"; continue; }
-  dst=seeded/$ID-$v
+  n=$v; [ -n "$ROUND2" ] && { [ $v = a ] && n=c || n=d; }; dst=seeded/$ID-$n
   mkdir -p $dst
   cp $src/patch.diff $src/demo.py $dst/ 2>/dev/null
   cp $src/notes.md $dst/notes.md 2>/dev/null
